@@ -602,11 +602,24 @@ extractAndRemoveScalingAndShear (
     //                  0,   0,   0,  1 >
 
     // Compute XY shear factor and make 2nd row orthogonal to 1st.
+    // If the 2nd row is a multiple of the 1st, what is left of it is
+    // rounding residue, not a scale: the matrix is singular, which is
+    // reported like a zero scale.
+    const T tiny = T (8) * std::numeric_limits<T>::epsilon ();
+    T before = row[1].length ();
     shr[0] = row[0].dot (row[1]);
     row[1] -= shr[0] * row[0];
 
     // Now, compute Y scale.
     scl.y = row[1].length ();
+    if (scl.y <= tiny * before)
+    {
+        if (exc)
+            throw std::domain_error ("Cannot remove zero scaling "
+                                     "from matrix.");
+        else
+            return false;
+    }
     if (!checkForZeroScaleInRow (scl.y, row[1], exc)) return false;
 
     // Normalize 2nd row and correct the XY shear factor for Y scaling.
@@ -614,13 +627,23 @@ extractAndRemoveScalingAndShear (
     shr[0] /= scl.y;
 
     // Compute XZ and YZ shears, orthogonalize 3rd row.
+    before = row[2].length ();
     shr[1] = row[0].dot (row[2]);
     row[2] -= shr[1] * row[0];
     shr[2] = row[1].dot (row[2]);
     row[2] -= shr[2] * row[1];
 
-    // Next, get Z scale.
+    // Next, get Z scale (a 3rd row in the plane of the first two
+    // leaves rounding residue only: singular, see above).
     scl.z = row[2].length ();
+    if (scl.z <= tiny * before)
+    {
+        if (exc)
+            throw std::domain_error ("Cannot remove zero scaling "
+                                     "from matrix.");
+        else
+            return false;
+    }
     if (!checkForZeroScaleInRow (scl.z, row[2], exc)) return false;
 
     // Normalize 3rd row and correct the XZ and YZ shear factors for Z scaling.
@@ -1302,11 +1325,23 @@ extractAndRemoveScalingAndShear (
     //                  0,   0,  1 >
 
     // Compute XY shear factor and make 2nd row orthogonal to 1st.
+    // If the 2nd row is a multiple of the 1st, what is left of it is
+    // rounding residue, not a scale: the matrix is singular, which is
+    // reported like a zero scale.
+    const T before = row[1].length ();
     shr = row[0].dot (row[1]);
     row[1] -= shr * row[0];
 
     // Now, compute Y scale.
     scl.y = row[1].length ();
+    if (scl.y <= T (8) * std::numeric_limits<T>::epsilon () * before)
+    {
+        if (exc)
+            throw std::domain_error ("Cannot remove zero scaling "
+                                     "from matrix.");
+        else
+            return false;
+    }
     if (!checkForZeroScaleInRow (scl.y, row[1], exc)) return false;
 
     // Normalize 2nd row and correct the XY shear factor for Y scaling.
